@@ -3,6 +3,7 @@ package rules
 import (
 	"fmt"
 	"go/token"
+	"go/types"
 	"sort"
 	"strings"
 
@@ -14,7 +15,7 @@ import (
 func init() {
 	register(&Rule{ID: "HELP-1", Props: []string{"C17", "C14"}, Floor: 6,
 		Doc: "help rows: every declared argument, option and non-hidden command is visited; rows carry description, env list and default; all aliases; long description only on request; usage line = full path + trimmed spec + COMMAND marker iff sub-commands; children get the full parent path", Run: help1})
-	register(&Rule{ID: "HELP-2", Props: []string{"C17"}, Floor: 3,
+	register(&Rule{ID: "HELP-2", Props: []string{"C17"}, Floor: 6,
 		Doc: "help helpers: default shown iff not hidden and non-empty; every env variable listed; first short and first long option name", Run: help2})
 	register(&Rule{ID: "HELP-3", Props: []string{"C17", "C14"}, Floor: 1,
 		Doc: "the long help is printed only on request (help branch, PrintLongHelp)", Run: help3})
@@ -420,8 +421,116 @@ func varargElemsOrdered(v ssa.Value) []ssa.Value {
 	return out
 }
 
+// walkPath follows the CFG from start, deciding every branch with leaf (after resolving boolean
+// phis along the path taken, constants and negations), until it reaches stopAt, a return or a
+// panic. It returns the blocks visited and the terminating instruction (nil when stopAt was reached).
+func walkPath(start, stopAt *ssa.BasicBlock, prefix []*ssa.BasicBlock, leaf func(v ssa.Value, path []*ssa.BasicBlock) (bool, bool)) (path []*ssa.BasicBlock, last ssa.Instruction, ok bool) {
+	path = append(path, prefix...)
+	var eval func(v ssa.Value) (bool, bool)
+	eval = func(v ssa.Value) (bool, bool) {
+		v = resolveAlong(v, path)
+		if k, isC := ir.ConstBool(v); isC {
+			return k, true
+		}
+		if u, isU := v.(*ssa.UnOp); isU && u.Op == token.NOT {
+			r, ok := eval(u.X)
+			return !r, ok
+		}
+		if _, isPhi := v.(*ssa.Phi); isPhi {
+			return false, false
+		}
+		return leaf(v, path)
+	}
+	b := start
+	for steps := 0; steps < 200; steps++ {
+		if b == stopAt && steps > 0 {
+			path = append(path, b)
+			return path, nil, true
+		}
+		path = append(path, b)
+		if len(b.Instrs) == 0 {
+			return path, nil, false
+		}
+		switch x := b.Instrs[len(b.Instrs)-1].(type) {
+		case *ssa.If:
+			t, ok := eval(x.Cond)
+			if !ok {
+				return path, x, false
+			}
+			if t {
+				b = b.Succs[0]
+			} else {
+				b = b.Succs[1]
+			}
+		case *ssa.Jump:
+			b = b.Succs[0]
+		case *ssa.Return:
+			return path, x, true
+		case *ssa.Panic:
+			return path, x, true
+		default:
+			return path, x, false
+		}
+	}
+	return path, nil, false
+}
+
+// mentionsValue reports whether the text value v is built (by concatenation or a formatting call)
+// from want; phis must mention it on every edge.
+func mentionsValue(v, want ssa.Value, depth int) bool {
+	if v == want {
+		return true
+	}
+	if depth > 8 {
+		return false
+	}
+	switch x := v.(type) {
+	case *ssa.BinOp:
+		if x.Op == token.ADD {
+			return mentionsValue(x.X, want, depth+1) || mentionsValue(x.Y, want, depth+1)
+		}
+	case *ssa.Call:
+		for _, a := range printfArgs(x) {
+			if mentionsValue(a, want, depth+1) {
+				return true
+			}
+		}
+	case *ssa.Phi:
+		if len(x.Edges) == 0 {
+			return false
+		}
+		for _, e := range x.Edges {
+			if e == ssa.Value(x) {
+				continue
+			}
+			if !mentionsValue(e, want, depth+1) {
+				return false
+			}
+		}
+		return true
+	}
+	return false
+}
+
+func lenCmp(op token.Token, n, k int64) (bool, bool) {
+	switch op {
+	case token.EQL:
+		return n == k, true
+	case token.NEQ:
+		return n != k, true
+	case token.GTR:
+		return n > k, true
+	case token.GEQ:
+		return n >= k, true
+	case token.LSS:
+		return n < k, true
+	case token.LEQ:
+		return n <= k, true
+	}
+	return false, false
+}
+
 func help2(c *Ctx) {
-	// value helper: found as the callee of the "default part" in printHelp rows; located by signature (bool, string) string
 	ph := c.fnOpt("", "Cmd.printHelp")
 	if ph == nil {
 		c.Undecided("anchor:Cmd.printHelp", token.NoPos, "not found")
@@ -452,49 +561,38 @@ func help2(c *Ctx) {
 		fn := valueFn
 		c.Mark(fn)
 		hide, v := fn.Params[0], fn.Params[1]
-		ok := true
-		why := ""
-		sawShown := false
-		for _, r := range ir.Returns(fn) {
-			if s, isC := ir.ConstString(r.Results[0]); isC {
-				if s != "" {
-					ok, why = false, "returns a non-empty constant"
+		for _, sc := range []struct{ hidden, empty bool }{{true, true}, {true, false}, {false, true}, {false, false}} {
+			key := fmt.Sprintf("%s[hidden=%v,empty=%v]", Q(fn), sc.hidden, sc.empty)
+			leaf := func(x ssa.Value, _ []*ssa.BasicBlock) (bool, bool) {
+				if x == ssa.Value(hide) {
+					return sc.hidden, true
 				}
-				// "" only if hidden or empty
-				hid := ir.HoldsAt(hide, true, r.Block())
-				emp := false
-				ir.Instrs(fn, func(in ssa.Instruction) {
-					if bo, isBo := in.(*ssa.BinOp); isBo && bo.X == ssa.Value(v) {
-						if s2, isS := ir.ConstString(bo.Y); isS && s2 == "" && bo.Op == token.EQL && ir.HoldsAt(bo, true, r.Block()) {
-							emp = true
+				if bo, ok := x.(*ssa.BinOp); ok {
+					if s, isS := ir.ConstString(bo.Y); isS && s == "" && bo.X == ssa.Value(v) {
+						return lenCmp(bo.Op, boolToLen(!sc.empty), 0)
+					}
+					if lc, isCall := bo.X.(*ssa.Call); isCall {
+						if bi, isB := lc.Call.Value.(*ssa.Builtin); isB && bi.Name() == "len" && lc.Call.Args[0] == ssa.Value(v) {
+							if k, isK := ir.ConstInt(bo.Y); isK {
+								return lenCmp(bo.Op, boolToLen(!sc.empty), k)
+							}
 						}
 					}
-				})
-				if !hid && !emp {
-					ok, why = false, "the default can be suppressed although it is neither hidden nor empty"
 				}
+				return false, false
+			}
+			_, last, ok := walkPath(fn.Blocks[0], nil, nil, leaf)
+			ret, isRet := last.(*ssa.Return)
+			if !ok || !isRet {
+				c.Undecided(key, fn.Pos(), "cannot evaluate the helper for this case")
 				continue
 			}
-			call, isCall := r.Results[0].(*ssa.Call)
-			if !isCall {
-				ok, why = false, "unexpected result"
-				continue
-			}
-			shows := false
-			for _, a := range printfArgs(call) {
-				if a == ssa.Value(v) {
-					shows = true
-				}
-			}
-			if !shows {
-				ok, why = false, "the shown text does not contain the default value"
-			}
-			if !ir.HoldsAt(hide, false, r.Block()) {
-				ok, why = false, "a hidden value can be shown"
-			}
-			sawShown = true
+			shows := mentionsValue(ret.Results[0], v, 0)
+			cs, isConst := ir.ConstString(ret.Results[0])
+			want := !sc.hidden && !sc.empty
+			good := (want && shows) || (!want && isConst && cs == "")
+			c.Check(good, key, fn.Pos(), fmt.Sprintf("default shown=%v", shows), fmt.Sprintf("default shown=%v, but it must be shown iff the value is not hidden and not empty", shows))
 		}
-		c.Check(ok && sawShown, Q(fn), fn.Pos(), "\"\" iff hidden or empty, otherwise a text containing the default", why)
 	} else {
 		c.Undecided("anchor:help-value-helper", token.NoPos, "not found")
 	}
@@ -502,28 +600,55 @@ func help2(c *Ctx) {
 		fn := envFn
 		c.Mark(fn)
 		ok := false
-		why := "not every variable of strings.Fields(list) is added"
-		for _, call := range ir.Calls(fn) {
-			for _, a := range printfArgs(call) {
-				if sl, h, isR := rangeElemHeader(a); isR {
-					if fc := stdCall(sl, "strings", "Fields"); fc != nil && fc.Call.Args[0] == ssa.Value(fn.Params[0]) {
-						if okB, _ := noBreak(h); okB {
-							// the formatted piece is appended to the accumulated result on every iteration
-							_, entry, _ := loopBody(h)
-							if entry == call.Block() || !ir.Reach(entry, map[*ssa.BasicBlock]bool{call.Block(): true}, nil)[h] {
-								for _, u := range *call.(*ssa.Call).Referrers() {
-									if bo, isBo := u.(*ssa.BinOp); isBo && bo.Op == token.ADD {
-										if _, isPhi := bo.X.(*ssa.Phi); isPhi {
-											ok = true
-										}
-									}
-								}
-							}
-						}
+		why := "not every variable of strings.Fields(list) is added to the text"
+		// the loop over strings.Fields(param) and its text accumulator
+		ir.Instrs(fn, func(in ssa.Instruction) {
+			v, isV := in.(ssa.Value)
+			if !isV {
+				return
+			}
+			sl, h, isR := rangeElemHeader(v)
+			if !isR {
+				return
+			}
+			fc := stdCall(sl, "strings", "Fields")
+			if fc == nil || fc.Call.Args[0] != ssa.Value(fn.Params[0]) {
+				return
+			}
+			if okB, _ := noBreak(h); !okB {
+				return
+			}
+			for _, hin := range h.Instrs {
+				acc, isPhi := hin.(*ssa.Phi)
+				if !isPhi || acc.Comment == "rangeindex" {
+					continue
+				}
+				if b, isB := acc.Type().Underlying().(*types.Basic); !isB || b.Kind() != types.String {
+					continue
+				}
+				good := true
+				nBack := 0
+				for i, e := range acc.Edges {
+					if !h.Dominates(h.Preds[i]) {
+						continue
+					}
+					nBack++
+					if !mentionsValue(e, acc, 0) || !mentionsValue(e, v, 0) {
+						good = false
 					}
 				}
+				// the accumulator must reach the result
+				reaches := false
+				for _, r := range ir.Returns(fn) {
+					if mentionsValue(r.Results[0], acc, 0) {
+						reaches = true
+					}
+				}
+				if good && nBack > 0 && reaches {
+					ok = true
+				}
 			}
-		}
+		})
 		c.Check(ok, Q(fn), fn.Pos(), "every variable of the list appears", why)
 	} else {
 		c.Undecided("anchor:help-env-helper", token.NoPos, "not found")
@@ -533,6 +658,13 @@ func help2(c *Ctx) {
 	} else {
 		c.Undecided("anchor:help-names-helper", token.NoPos, "not found")
 	}
+}
+
+func boolToLen(nonEmpty bool) int64 {
+	if nonEmpty {
+		return 3
+	}
+	return 0
 }
 
 // resolveAlong resolves phis of v using the block path taken.
@@ -572,7 +704,6 @@ func resolveAlong(v ssa.Value, path []*ssa.BasicBlock) ssa.Value {
 func help2names(c *Ctx, fn *ssa.Function) {
 	c.Mark(fn)
 	key := Q(fn)
-	// the loop over o.Names
 	var n ssa.Value
 	var hdr *ssa.BasicBlock
 	ir.Instrs(fn, func(in ssa.Instruction) {
@@ -592,11 +723,12 @@ func help2names(c *Ctx, fn *ssa.Function) {
 		c.Bad(key+":scan-all", fn.Pos(), "%s: a short name listed after the first long one (or vice versa) would be lost", w)
 		return
 	}
-	// the two accumulators
 	var accs []*ssa.Phi
 	for _, in := range hdr.Instrs {
 		if phi, ok := in.(*ssa.Phi); ok && phi.Comment != "rangeindex" {
-			accs = append(accs, phi)
+			if b, isB := phi.Type().Underlying().(*types.Basic); isB && b.Kind() == types.String {
+				accs = append(accs, phi)
+			}
 		}
 	}
 	if len(accs) != 2 {
@@ -604,7 +736,6 @@ func help2names(c *Ctx, fn *ssa.Function) {
 		return
 	}
 	_, entry, exit := loopBody(hdr)
-	// one iteration, for name lengths 2, 3, 6 and each emptiness combination
 	type kind struct{ short, long *ssa.Phi }
 	var k kind
 	decided := false
@@ -612,32 +743,25 @@ func help2names(c *Ctx, fn *ssa.Function) {
 		for _, e0 := range []bool{true, false} {
 			for _, e1 := range []bool{true, false} {
 				empty := map[*ssa.Phi]bool{accs[0]: e0, accs[1]: e1}
-				var path []*ssa.BasicBlock
-				path = append(path, hdr)
-				cond := func(v ssa.Value) (bool, bool) {
+				leaf := func(v ssa.Value, path []*ssa.BasicBlock) (bool, bool) {
 					bo, ok := v.(*ssa.BinOp)
 					if !ok {
 						return false, false
 					}
 					if lc, isCall := bo.X.(*ssa.Call); isCall {
-						if bi, isB := lc.Call.Value.(*ssa.Builtin); isB && bi.Name() == "len" && lc.Call.Args[0] == n {
+						if bi, isB := lc.Call.Value.(*ssa.Builtin); isB && bi.Name() == "len" {
 							kk, isC := ir.ConstInt(bo.Y)
 							if !isC {
 								return false, false
 							}
-							switch bo.Op {
-							case token.EQL:
-								return ln == kk, true
-							case token.NEQ:
-								return ln != kk, true
-							case token.GTR:
-								return ln > kk, true
-							case token.GEQ:
-								return ln >= kk, true
-							case token.LSS:
-								return ln < kk, true
-							case token.LEQ:
-								return ln <= kk, true
+							a := resolveAlong(lc.Call.Args[0], path)
+							if a == n {
+								return lenCmp(bo.Op, ln, kk)
+							}
+							if phi, isPhi := a.(*ssa.Phi); isPhi {
+								if e, known := empty[phi]; known {
+									return lenCmp(bo.Op, boolToLen(!e), kk)
+								}
 							}
 						}
 					}
@@ -645,52 +769,24 @@ func help2names(c *Ctx, fn *ssa.Function) {
 						x := resolveAlong(bo.X, path)
 						if phi, isPhi := x.(*ssa.Phi); isPhi {
 							if e, known := empty[phi]; known {
-								return (bo.Op == token.EQL) == e, true
+								return lenCmp(bo.Op, boolToLen(!e), 0)
 							}
 						}
 						if x == n {
-							return bo.Op != token.EQL, true // a name is never empty
+							return lenCmp(bo.Op, ln, 0)
 						}
 					}
 					return false, false
 				}
-				// walk one iteration manually to keep the path
-				b := entry
-				okWalk := true
-				for steps := 0; steps < 50 && b != hdr; steps++ {
-					path = append(path, b)
-					last := b.Instrs[len(b.Instrs)-1]
-					switch x := last.(type) {
-					case *ssa.If:
-						t, ok := cond(x.Cond)
-						if !ok {
-							okWalk = false
-						}
-						if t {
-							b = b.Succs[0]
-						} else {
-							b = b.Succs[1]
-						}
-					case *ssa.Jump:
-						b = b.Succs[0]
-					default:
-						okWalk = false
-					}
-					if !okWalk {
-						break
-					}
-				}
-				if !okWalk || b != hdr {
+				path, last, ok := walkPath(entry, hdr, []*ssa.BasicBlock{hdr}, leaf)
+				if !ok || last != nil {
 					c.Undecided(key+":iteration", fn.Pos(), "cannot evaluate one iteration for len(name)=%d", ln)
 					return
 				}
-				path = append(path, hdr)
-				// new values
 				nv := map[*ssa.Phi]ssa.Value{}
 				for _, a := range accs {
 					nv[a] = resolveAlong(a, path)
 				}
-				// decide which accumulator is short / long from the first informative scenario
 				for _, a := range accs {
 					if nv[a] == n && !decided {
 						other := accs[0]
@@ -728,87 +824,46 @@ func help2names(c *Ctx, fn *ssa.Function) {
 		return
 	}
 	c.OK(key+":first-short-first-long", fn.Pos(), "keeps the first name of length 2 and the first longer name, scanning all names")
-	// the result
 	for _, sc := range []struct{ s, l bool }{{true, true}, {true, false}, {false, true}, {false, false}} {
-		cond := func(v ssa.Value) (bool, bool) {
+		leaf := func(v ssa.Value, path []*ssa.BasicBlock) (bool, bool) {
 			bo, ok := v.(*ssa.BinOp)
 			if !ok {
 				return false, false
 			}
-			if s, isS := ir.ConstString(bo.Y); isS && s == "" {
-				var has bool
-				switch bo.X {
+			has := func(x ssa.Value) (bool, bool) {
+				switch x {
 				case ssa.Value(k.short):
-					has = sc.s
+					return sc.s, true
 				case ssa.Value(k.long):
-					has = sc.l
-				default:
-					return false, false
+					return sc.l, true
 				}
-				return (bo.Op == token.NEQ) == has, true
+				return false, false
+			}
+			if s, isS := ir.ConstString(bo.Y); isS && s == "" {
+				if h, known := has(bo.X); known {
+					return lenCmp(bo.Op, boolToLen(h), 0)
+				}
+			}
+			if lc, isCall := bo.X.(*ssa.Call); isCall {
+				if bi, isB := lc.Call.Value.(*ssa.Builtin); isB && bi.Name() == "len" {
+					if kk, isC := ir.ConstInt(bo.Y); isC {
+						if h, known := has(lc.Call.Args[0]); known {
+							return lenCmp(bo.Op, boolToLen(h), kk)
+						}
+					}
+				}
 			}
 			return false, false
 		}
-		var result ssa.Value
-		b := exit
-		okWalk := true
-		rpath := []*ssa.BasicBlock{hdr}
-		base := cond
-		cond = func(v ssa.Value) (bool, bool) {
-			v = resolveAlong(v, rpath)
-			if k, isC := ir.ConstBool(v); isC {
-				return k, true
-			}
-			return base(v)
-		}
-		for steps := 0; steps < 50 && okWalk; steps++ {
-			rpath = append(rpath, b)
-			last := b.Instrs[len(b.Instrs)-1]
-			switch x := last.(type) {
-			case *ssa.If:
-				t, ok := cond(x.Cond)
-				if !ok {
-					okWalk = false
-				}
-				if t {
-					b = b.Succs[0]
-				} else {
-					b = b.Succs[1]
-				}
-			case *ssa.Jump:
-				b = b.Succs[0]
-			case *ssa.Return:
-				result = x.Results[0]
-				steps = 100
-			default:
-				okWalk = false
-			}
-		}
 		skey := fmt.Sprintf("%s:result[short=%v,long=%v]", key, sc.s, sc.l)
-		if !okWalk || result == nil {
+		_, last, ok := walkPath(exit, nil, []*ssa.BasicBlock{hdr}, leaf)
+		ret, isRet := last.(*ssa.Return)
+		if !ok || !isRet {
 			c.Undecided(skey, fn.Pos(), "cannot evaluate the result for this case")
 			continue
 		}
-		mentions := func(v ssa.Value) (s, l bool) {
-			if v == ssa.Value(k.short) {
-				return true, false
-			}
-			if v == ssa.Value(k.long) {
-				return false, true
-			}
-			if call, ok := v.(*ssa.Call); ok {
-				for _, a := range printfArgs(call) {
-					if a == ssa.Value(k.short) {
-						s = true
-					}
-					if a == ssa.Value(k.long) {
-						l = true
-					}
-				}
-			}
-			return
-		}
-		ms, ml := mentions(result)
+		result := ret.Results[0]
+		ms, ml := mentionsValue(result, k.short, 0), mentionsValue(result, k.long, 0)
 		if cs, isC := ir.ConstString(result); isC {
 			c.Check(cs == "" && !sc.s && !sc.l, skey, fn.Pos(), "empty", "a constant is returned although a name exists")
 			continue
